@@ -4,7 +4,7 @@ use serde_json::json;
 use crate::exec;
 use crate::gen::color;
 use crate::gen::config::Cfg;
-use crate::gen::diff::{gen_case, lines_to_bytes, GenOpts};
+use crate::gen::diff::{gen_case, lines_to_bytes, GenOpts, Role};
 use crate::gen::other;
 use crate::gen::text;
 use crate::runner::{Ctx, Failure, Prop, Sup, Tier, Verdict};
@@ -232,6 +232,32 @@ impl Prop for C09 {
             if coloured {
                 let co = color::gen_opts(t);
                 lines = color::colorize(&lines, &co);
+            }
+            // `git log --stat --color`: the histogram of a diffstat line is coloured (green +, red -);
+            // under --relative-paths (with a GIT_PREFIX to work from) delta rewrites such lines
+            if lines.iter().any(|l| matches!(l.role, Role::DiffStat)) && t.coin() {
+                let long = t.coin();
+                for l in lines.iter_mut() {
+                    if let Role::DiffStat = l.role {
+                        if let Some(bar) = l.text.rfind(" | ") {
+                            let tail = l.text[bar + 3..].to_string();
+                            let mut it = tail.splitn(2, ' ');
+                            let (n, hist) = (it.next().unwrap_or(""), it.next().unwrap_or(""));
+                            if !hist.is_empty() && hist.chars().all(|c| c == '+' || c == '-') {
+                                let k = if long { 25 } else { 1 };
+                                let plus = "+".repeat(hist.matches('+').count() * k);
+                                let minus = "-".repeat(hist.matches('-').count() * k);
+                                let wrap = |code: &str, s: &str| if s.is_empty() { String::new() } else { format!("\x1b[{}m{}\x1b[m", code, s) };
+                                l.text = format!("{} | {} {}{}", &l.text[..bar], n, wrap("32", &plus), wrap("31", &minus));
+                            }
+                        }
+                    }
+                }
+                if t.chance(2, 3) {
+                    cfg.flag("relative-paths");
+                    cfg.env.git_prefix = Some(t.ps(&["src/", "a/b/", "docs/"]).to_string());
+                }
+                ctx.class("coloured-diffstat");
             }
             let mut b = lines_to_bytes(&lines, true);
             if !coloured && t.chance(1, 3) {
